@@ -1,6 +1,429 @@
-/- C18 — property theorems.  Stub. -/
-import CBV.Model.C18
+/-
+C18 — property theorems.  The geometric finders return exactly the vertices inside the sphere /
+on the plane (to the merge tolerance), the round-shape finder exactly the core / the outer rim
+(sketch tables regenerated from the source on every run); the view-point re-orienter returns the
+same eight points, and the numbering the property asks for is unique among the 48 relabellings.
+-/
+import CBV.Lemmas.C18
+import CBV.Lemmas.C18Hex
+import CBV.Lemmas.C18Model
+import CBV.Lemmas.C18Data
 
 namespace CBV.C18
+
+open CBV
+
+/-! ### geometric finders: no vertex missed, none extra -/
+
+/-- `find_in_sphere` returns exactly the (indices of the) vertices with `|v - c| < r`, `r > 0`. -/
+theorem T_C18_sphere (vs : List V3) (c : V3) (r : Option Rat) (i : Nat) :
+    i ∈ findInSphere vs c r ↔
+      i < vs.length ∧ 0 < r.getD tol ∧ dist2 (vs.getD i V3.zero) c < r.getD tol * r.getD tol := by
+  simp [findInSphere, mem_findIdx, inSphere]
+
+/-- … without repetition, in the order of the vertex list -/
+theorem T_C18_sphere_nodup (vs : List V3) (c : V3) (r : Option Rat) : (findInSphere vs c r).Nodup :=
+  List.Nodup.sublist List.filter_sublist List.nodup_range
+
+/-- the rejecting branch: a radius ≤ 0 finds nothing (the squares alone would say otherwise) -/
+theorem T_C18_sphere_nonpositive (vs : List V3) (c : V3) (r : Rat) (h : r ≤ 0) :
+    findInSphere vs c (some r) = [] := by
+  apply List.eq_nil_iff_forall_not_mem.mpr
+  intro i hi
+  rw [T_C18_sphere] at hi
+  exact absurd hi.2.1 (not_lt.mpr h)
+
+example : findInSphere [⟨0, 0, 0⟩, ⟨1, 0, 0⟩, ⟨0, 2, 0⟩] ⟨0, 0, 0⟩ (some (3 / 2)) = [0, 1] := by decide +kernel
+example : findInSphere [⟨0, 0, 0⟩, ⟨1, 0, 0⟩] ⟨1, 0, 0⟩ none = [1] := by decide +kernel
+
+/-- `find_on_plane` returns exactly the vertices that pass `is_point_on_plane` -/
+theorem T_C18_plane (vs : List V3) (o n : V3) (i : Nat) :
+    i ∈ findOnPlane vs o n ↔ i < vs.length ∧ onPlane o n (vs.getD i V3.zero) := by
+  simp [findOnPlane, mem_findIdx]
+
+/-- the coincident-origin shortcut never changes the answer: for a proper normal the test is
+    `((v - o)·n)² < TOL² |n|²` -/
+theorem T_C18_plane_shortcut (o n v : V3) (hn : n ≠ V3.zero) :
+    onPlane o n v ↔ V3.dot (v - o) n * V3.dot (v - o) n < tol * tol * V3.norm2 n := by
+  unfold onPlane
+  constructor
+  · rintro (h | h)
+    · exact plane_shortcut hn h
+    · exact h
+  · exact Or.inr
+
+/-- … and that is the geometric statement: some point of the plane lies within TOL of the vertex -/
+theorem T_C18_plane_geometric (o n v : V3) (hn : n ≠ V3.zero) :
+    onPlane o n v ↔ ∃ p : V3, V3.dot (p - o) n = 0 ∧ dist2 v p < tol * tol := by
+  rw [T_C18_plane_shortcut o n v hn]
+  have hN := norm2_pos hn
+  constructor
+  · intro h
+    refine ⟨foot o n v, foot_on_plane hn, ?_⟩
+    have := foot_dist (o := o) (v := v) hn
+    by_contra hc
+    have hc : tol * tol ≤ dist2 v (foot o n v) := not_lt.mp hc
+    have : tol * tol * V3.norm2 n ≤ dist2 v (foot o n v) * V3.norm2 n := mul_le_mul_of_nonneg_right hc (le_of_lt hN)
+    linarith
+  · rintro ⟨p, hp, hd⟩
+    have hsplit : V3.dot (v - o) n = V3.dot (v - p) n := by
+      unfold V3.dot at *
+      simp only [V3.sub_x, V3.sub_y, V3.sub_z] at *
+      linear_combination hp
+    rw [hsplit]
+    have hc := cauchy (v - p) n
+    have hd' : V3.norm2 (v - p) < tol * tol := hd
+    have : V3.norm2 (v - p) * V3.norm2 n < tol * tol * V3.norm2 n := mul_lt_mul_of_pos_right hd' hN
+    linarith
+
+/-- the degenerate branch: without a normal only the vertices coincident with the origin are returned -/
+theorem T_C18_plane_zero_normal (o v : V3) : onPlane o V3.zero v ↔ dist2 o v < tol * tol := by
+  unfold onPlane
+  have : V3.norm2 V3.zero = 0 := by simp [V3.norm2, V3.dot, V3.zero]
+  have h0 : V3.dot (v - o) V3.zero = 0 := by unfold V3.dot V3.zero; simp
+  rw [this, h0]
+  simp
+
+example : findOnPlane [⟨0, 0, 0⟩, ⟨1, 0, 0⟩, ⟨1, 1, 5⟩, ⟨0, 0, 1⟩] ⟨1, 0, 0⟩ ⟨3, 0, 0⟩ = [1, 2] := by decide +kernel
+
+/-! ### round-shape finder: exactly the core / the outer rim -/
+
+/-- the sketches the tables were generated for (every class a round shape of the library is built from) -/
+theorem T_C18_sketch_names :
+    sketches.map (·.name) =
+      ["OneCoreDisk", "QuarterDisk", "HalfDisk", "FourCoreDisk", "WrappedDisk", "Annulus8", "Annulus5"] := by decide
+
+/-- on the tables of the current source: the points `[1:3]` of the shell faces are exactly the points at the
+    outer radius, no core point lies there, and in the solid disks every other point is a core point -/
+theorem T_C18_shape : ∀ s ∈ sketches, shapeOk s = true := by decide
+
+theorem T_C18_find_core (vs : List V3) (s : Sketch) (pts : List V3) (i : Nat) :
+    i ∈ findCore vs s pts ↔
+      i < vs.length ∧ ∃ k ∈ s.corePts, near (vs.getD i V3.zero) (pts.getD k V3.zero) := by
+  simp [findCore, findFromPoints, mem_findIdx, pickPts]
+
+theorem T_C18_find_shell (vs : List V3) (s : Sketch) (pts : List V3) (i : Nat) :
+    i ∈ findShell vs s pts ↔
+      i < vs.length ∧ ∃ k ∈ s.shellOuterPts, near (vs.getD i V3.zero) (pts.getD k V3.zero) := by
+  simp [findShell, findFromPoints, mem_findIdx, pickPts]
+
+/-- `find_shell` returns exactly the vertices that coincide with a point of the outer rim of the end face -/
+theorem T_C18_find_shell_rim (vs : List V3) (s : Sketch) (hs : s ∈ sketches) (pts : List V3) (i : Nat) :
+    i ∈ findShell vs s pts ↔
+      i < vs.length ∧ ∃ k, s.isRim k = true ∧ near (vs.getD i V3.zero) (pts.getD k V3.zero) := by
+  rw [T_C18_find_shell]
+  have hok := T_C18_shape s hs
+  simp only [shapeOk, Bool.and_eq_true, List.all_eq_true, List.mem_range, decide_eq_true_eq] at hok
+  obtain ⟨⟨h1, h2⟩, _⟩ := hok
+  constructor
+  · rintro ⟨hi, k, hk, hn⟩
+    refine ⟨hi, k, ?_, hn⟩
+    have := (h1 k (h2 k hk)).1.1
+    rw [← beq_iff_eq.mp this]
+    simpa using hk
+  · rintro ⟨hi, k, hk, hn⟩
+    refine ⟨hi, k, ?_, hn⟩
+    have hlt : k < s.nPts := by
+      simp only [Sketch.isRim, Bool.and_eq_true, decide_eq_true_eq] at hk
+      exact hk.1
+    have := (h1 k hlt).1.1
+    have hc : s.shellOuterPts.contains k = true := by rw [beq_iff_eq.mp this]; exact hk
+    simpa using hc
+
+/-- `find_core` never returns a rim vertex and, in a solid disk, misses no other vertex of the end face:
+    every sketch point is a core point or a rim point, never both -/
+theorem T_C18_core_rim_partition (s : Sketch) (hs : s ∈ sketches) (k : Nat) (hk : k < s.nPts) :
+    ¬ (k ∈ s.corePts ∧ s.isRim k = true) ∧ (s.solid = true → k ∈ s.corePts ∨ s.isRim k = true) := by
+  have hok := T_C18_shape s hs
+  simp only [shapeOk, Bool.and_eq_true, List.all_eq_true, List.mem_range, decide_eq_true_eq] at hok
+  obtain ⟨⟨h1, _⟩, _⟩ := hok
+  have h := h1 k hk
+  constructor
+  · rintro ⟨hc, hr⟩
+    have := h.1.2
+    simp [hr, hc] at this
+  · intro hsol
+    have := h.2
+    simpa [hsol] using this
+
+example : (sketchOf "FourCoreDisk").map (fun s => (s.corePts.eraseDups.length, s.shellOuterPts.eraseDups.length, s.solid))
+    = some (9, 8, true) := by decide
+
+/-! ### the model of `ViewpointReorienter.reorient` -/
+
+/-- The same eight points: whenever the re-orienter returns, its result is a permutation of the eight points
+    it was given (points pairwise distinct to the merge tolerance, hull simplices addressing them). -/
+theorem T_C18_same_points (pts : List V3) (sim : List (Nat × Nat × Nat)) (obs ceil : V3) (out : List V3)
+    (hnd : pts.Nodup) (hsep : ∀ a ∈ pts, ∀ b ∈ pts, near a b → a = b) (hsim : simplicesOk pts.length sim)
+    (h : reorient pts sim obs ceil = .ok out) : out.Perm pts := by
+  obtain ⟨tris, ht, hc⟩ := reorient_spec h
+  obtain ⟨q, c0, hq, hc0, he, rfl⟩ := reorientCore_spec hc
+  obtain ⟨hlen, hbt⟩ := cornersOf_subset hc0
+  have hsub : ∀ p ∈ c0, p ∈ pts := by
+    intro p hp
+    apply makeTriangles_subset hsim ht
+    rcases hbt p hp with hb | hb
+    · exact quadsOf_subset hq "bottom" p hb
+    · exact quadsOf_subset hq "top" p hb
+  exact (fixHand_perm hlen).trans (eachOnce_perm hnd hsep hsub he)
+
+/-- The numbering is the blockMesh one: whenever the re-orienter returns, every corner `k` of what it returns
+    lies in the quads of exactly those sides that the generated `FACE_MAP` lists `k` for — the quads being the ones
+    picked for the view directions, with left and right exchanged when the handedness repair strikes. -/
+theorem T_C18_corners_in_sides (pts : List V3) (tris : List Tri) (c obs ceil : V3) (out : List V3)
+    (h : reorientCore pts tris c obs ceil = .ok out) :
+    ∃ q, quadsOf tris (dirsOf c obs ceil) = .ok q ∧ ∃ q' ∈ [q, q.swapLR],
+      ∀ e ∈ CBV.Gen.faceMap, ∀ k ∈ e.2, nearMem (out.getD k V3.zero) (q'.get e.1) := by
+  obtain ⟨q, c0, hq, hc0, _, rfl⟩ := reorientCore_spec h
+  refine ⟨q, hq, ?_⟩
+  have hs := cornersOf_sides hc0
+  unfold fixHand
+  simp only
+  split
+  · refine ⟨q.swapLR, by simp, ?_⟩
+    obtain ⟨p0, p1, p2, p3, p4, p5, p6, p7, rfl, _⟩ := cornersOf_spec hc0
+    intro e he k hk
+    simp only [CBV.Gen.faceMap, List.mem_cons, List.not_mem_nil, or_false] at he
+    have b := hs ("bottom", [0, 1, 2, 3]) (by decide)
+    have t := hs ("top", [4, 5, 6, 7]) (by decide)
+    have l := hs ("left", [4, 0, 3, 7]) (by decide)
+    have r := hs ("right", [5, 1, 2, 6]) (by decide)
+    have f := hs ("front", [4, 5, 1, 0]) (by decide)
+    have bk := hs ("back", [7, 6, 2, 3]) (by decide)
+    rcases he with rfl | rfl | rfl | rfl | rfl | rfl <;>
+      simp only [List.mem_cons, List.not_mem_nil, or_false] at hk <;>
+      rcases hk with rfl | rfl | rfl | rfl
+    · exact b 1 (by decide)
+    · exact b 0 (by decide)
+    · exact b 3 (by decide)
+    · exact b 2 (by decide)
+    · exact t 5 (by decide)
+    · exact t 4 (by decide)
+    · exact t 7 (by decide)
+    · exact t 6 (by decide)
+    · exact r 5 (by decide)
+    · exact r 1 (by decide)
+    · exact r 2 (by decide)
+    · exact r 6 (by decide)
+    · exact l 4 (by decide)
+    · exact l 0 (by decide)
+    · exact l 3 (by decide)
+    · exact l 7 (by decide)
+    · exact f 5 (by decide)
+    · exact f 4 (by decide)
+    · exact f 0 (by decide)
+    · exact f 1 (by decide)
+    · exact bk 6 (by decide)
+    · exact bk 7 (by decide)
+    · exact bk 3 (by decide)
+    · exact bk 2 (by decide)
+  · exact ⟨q, by simp, hs⟩
+
+/-- A side faces its view direction: the quad built in one pass of the loop consists of two of the remaining hull
+    triangles, no remaining triangle has a larger normal component along the direction than the first of them, and
+    none of those left over a larger one than the second (triangles non-degenerate). -/
+theorem T_C18_best_aligned (dir : V3) (rem : List Tri) (q : List V3) (rest : List Tri)
+    (hpos : ∀ t ∈ rem, 0 < V3.norm2 t.normalRaw) (h : quadStep dir rem = .ok (q, rest)) :
+    ∃ b a, mkQuad b a = .ok q ∧ a ∈ rem ∧ b ∈ rem ∧ (∀ t ∈ rest, t ∈ rem) ∧
+      (∀ t ∈ rem, ¬ alignLt (a.key dir) (t.key dir)) ∧ (∀ t ∈ rest, ¬ alignLt (b.key dir) (t.key dir)) := by
+  obtain ⟨b, a, hp, hq⟩ := quadStep_spec h
+  obtain ⟨ha, hb, hr⟩ := pick2_mem hp
+  obtain ⟨m1, m2⟩ := pick2_max (d := dir) hpos hp
+  exact ⟨b, a, hq, ha, hb, hr, m1, m2⟩
+
+/-- … in particular the front quad is picked among all hull triangles for the observer direction and the top quad,
+    for the (corrected) ceiling direction, among those left after front and back. -/
+theorem T_C18_front_top (tris : List Tri) (d : Dirs) (q : Quads) (h : quadsOf tris d = .ok q) :
+    ∃ r1 r2 r3, quadStep d.o tris = .ok (q.front, r1) ∧ quadStep (-d.o) r1 = .ok (q.back, r2) ∧
+      quadStep d.t r2 = .ok (q.top, r3) := by
+  obtain ⟨r1, r2, r3, _, _, _, h1, h2, h3, _⟩ := quadsOf_steps h
+  exact ⟨r1, r2, r3, h1, h2, h3⟩
+
+/-- The loop runs through the six named view directions of `Dirs.all` (tied to `_get_normals` by
+    `T_C18_view_order`) in that order, every pass taking its two triangles from what the previous passes left over
+    and storing the quad under the direction's name. -/
+theorem T_C18_loop (tris : List Tri) (d : Dirs) (q : Quads) (h : quadsOf tris d = .ok q) :
+    ∃ rems : List (List Tri), rems.length = 7 ∧ rems.getD 0 [] = tris ∧
+      ∀ i < 6, quadStep (d.all.getD i ("", V3.zero)).2 (rems.getD i []) =
+        .ok (q.get (d.all.getD i ("", V3.zero)).1, rems.getD (i + 1) []) := by
+  obtain ⟨r1, r2, r3, r4, r5, r6, h1, h2, h3, h4, h5, h6⟩ := quadsOf_steps h
+  refine ⟨[tris, r1, r2, r3, r4, r5, r6], rfl, rfl, ?_⟩
+  intro i hi
+  have : i = 0 ∨ i = 1 ∨ i = 2 ∨ i = 3 ∨ i = 4 ∨ i = 5 := by omega
+  rcases this with rfl | rfl | rfl | rfl | rfl | rfl
+  · exact h1
+  · exact h2
+  · exact h3
+  · exact h4
+  · exact h5
+  · exact h6
+
+/-- Whatever numbering the block had before: the initial numbering enters the re-orienter only through the hull.
+    Any renumbering of the eight points (all 8! of them, not only the 48) that comes with the same hull triangles
+    gives the same result. -/
+theorem T_C18_numbering_independent (pts pts' : List V3) (sim sim' : List (Nat × Nat × Nat)) (obs ceil : V3)
+    (hp : pts'.Perm pts) (ht : sim'.map (triOf pts') = sim.map (triOf pts)) :
+    reorient pts' sim' obs ceil = reorient pts sim obs ceil := by
+  have hl : sim'.length = sim.length := by simpa using congrArg List.length ht
+  unfold reorient makeTriangles
+  rw [hl, ht, average_perm hp]
+  split
+  · rfl
+  · simp only [reorientCore_perm hp]
+
+/-- the model returns on the unit cube (hypotheses of the theorems above are satisfiable) … -/
+example : reorient cubePts cubeHull ⟨1 / 2, -10, 1 / 2⟩ ⟨1 / 2, 1 / 2, 10⟩ = .ok cubePts := by decide +kernel
+
+/-- … a mirrored initial numbering with the correspondingly renumbered hull gives the same answer … -/
+example : reorient (swapLR cubePts) (cubeHull.map (fun s => (perm [1, 0, 3, 2, 5, 4, 7, 6] s.1,
+    perm [1, 0, 3, 2, 5, 4, 7, 6] s.2.1, perm [1, 0, 3, 2, 5, 4, 7, 6] s.2.2))) ⟨1 / 2, -10, 1 / 2⟩ ⟨1 / 2, 1 / 2, 10⟩
+    = .ok cubePts := by decide +kernel
+
+/-- … seen from the right (observer on +x) the numbering turns; a hull with fewer than 12 triangles is rejected -/
+example : (reorient cubePts cubeHull ⟨10, 1 / 2, 1 / 2⟩ ⟨1 / 2, 1 / 2, 10⟩).toOption.map (indicesIn cubePts)
+    = some [1, 2, 3, 0, 5, 6, 7, 4] := by decide +kernel
+
+example : reorient cubePts (cubeHull.take 10) ⟨10, 1 / 2, 1 / 2⟩ ⟨1 / 2, 1 / 2, 10⟩ = .error .notConvex := by
+  decide +kernel
+
+example : cubePts.Nodup ∧ (∀ a ∈ cubePts, ∀ b ∈ cubePts, near a b → a = b) ∧ simplicesOk cubePts.length cubeHull := by
+  unfold simplicesOk; decide +kernel
+
+/-- tie to the source: for the probe view of the generated table `c18ViewOrder` (observer on -y, ceiling on +z) the
+    model runs through the same six sides in the same order with the same directions as `_get_normals` -/
+theorem T_C18_view_order :
+    ((dirsOf ⟨0, 0, 0⟩ ⟨0, -10, 0⟩ ⟨0, 0, 10⟩).all.map (fun x => (x.1, signV x.2))) = CBV.Gen.c18ViewOrder := by
+  decide +kernel
+
+/-! ### repaired: two halves of different sides are not joined into a face
+
+Before the repair the two best aligned hull triangles of two *different* warped sides could be joined into a "quad"
+across a block edge; when the six quads happened to be consistent the result was a permutation of the points that is
+none of the 48 relabellings of the block.  The code (and the model) now refuse two triangles whose unit normals are
+more than 60° apart. -/
+
+/-- the two halves of every quad the model builds are at most 60° apart -/
+theorem T_C18_face_halves (t0 t1 : Tri) (q : List V3) (h : mkQuad t0 t1 = .ok q) : ¬ tooSteep t0 t1 := by
+  unfold mkQuad at h
+  split at h
+  · cases h
+  · assumption
+
+/-- the failing input of the unrepaired tree (corpus/c18/reorient-block-restructured.json: a right-handed block with a
+    closed convex hull of 12 triangles that was returned as `[4,0,7,6,5,1,3,2]`, not a relabelling) is now rejected -/
+example : rhOk (Hex.ofList cxPts) = true ∧ hullProblems cxPts cxHull 0 = [] ∧ [4, 0, 7, 6, 5, 1, 3, 2] ∉ sym48 ∧
+    reorient cxPts cxHull ⟨-53 / 64, -33 / 16, -71 / 16⟩ ⟨169 / 64, -45 / 32, -193 / 32⟩ = .error .degenerate := by
+  decide +kernel
+
+/-! ### the 48 relabellings and the canonical numbering -/
+
+/-- the 48 relabellings are 48 different permutations of the corners, each maps the corner set of every side
+    of the generated `FACE_MAP` onto the corner set of a side; the model's side cycles are those sides -/
+theorem T_C18_relabel :
+    sym48.length = 48 ∧ sym48.Nodup ∧
+    (∀ l ∈ sym48, l.Perm (List.range 8) ∧ ∀ e ∈ CBV.Gen.faceMap, imgSet (e.2.map (perm l)) = true) ∧
+    (∀ s ∈ List.range 6, sameSet ((List.range 4).map (cyc s)) ((CBV.Gen.faceMap.getD s ("", [])).2) = true) := by
+  decide +kernel
+
+/-- … and there are no others: a permutation of the corners that maps sides onto sides is one of the 48 -/
+theorem T_C18_sym48_complete (l : List Nat) (hlen : l.length = 8) (hlt : ∀ i ∈ l, i < 8) (hnd : l.Nodup)
+    (hs : ∀ e ∈ CBV.Gen.faceMap, imgSet (e.2.map (perm l)) = true) : l ∈ sym48 := by
+  match l, hlen with
+  | [a0, a1, a2, a3, a4, a5, a6, a7], _ =>
+    have m : ∀ a ∈ [a0, a1, a2, a3, a4, a5, a6, a7], a ∈ List.range 8 := fun a ha => List.mem_range.mpr (hlt a ha)
+    have hb := hs ("bottom", [0, 1, 2, 3]) (by decide)
+    have ht := hs ("top", [4, 5, 6, 7]) (by decide)
+    have hl := hs ("left", [4, 0, 3, 7]) (by decide)
+    have hr := hs ("right", [5, 1, 2, 6]) (by decide)
+    have hf := hs ("front", [4, 5, 1, 0]) (by decide)
+    have hk := hs ("back", [7, 6, 2, 3]) (by decide)
+    exact sym48_complete_aux a0 (m a0 (by simp)) a1 (m a1 (by simp)) a2 (m a2 (by simp)) a3 (m a3 (by simp)) hb
+      a4 (m a4 (by simp)) a5 (m a5 (by simp)) hf a6 (m a6 (by simp)) hr a7 (m a7 (by simp)) ht hl hk hnd
+
+example : ∀ e ∈ CBV.Gen.faceMap, imgSet (e.2.map (perm [1, 2, 3, 0, 5, 6, 7, 4])) = true := by decide
+
+/-- handedness from the triple products: a rotation permutes the eight corner triple products,
+    a mirrored relabelling permutes and negates them -/
+theorem T_C18_triple_products (P : Hex) (l : List Nat) (i : Nat) (hi : i < 8) :
+    (l ∈ proper24 → tp (relabel P (perm l)) i = tp P (perm l i)) ∧
+    (l ∈ improper24 → tp (relabel P (perm l)) i = -tp P (perm l i)) :=
+  ⟨fun h => tp_relabel_proper P l h i hi, fun h => tp_relabel_improper P l h i hi⟩
+
+/-- At most one of the 48 numberings of a block is canonical: if a numbering and a relabelling of it both have
+    the front side best aligned with the observer, the top side best aligned with the ceiling and positive
+    triple products, the relabelling is the identity. -/
+theorem T_C18_unique (obs ceil : V3) (P : Hex) (l : List Nat) (hl : l ∈ sym48)
+    (h1 : Canonical obs ceil P) (h2 : Canonical obs ceil (relabel P (perm l))) : l = [0, 1, 2, 3, 4, 5, 6, 7] := by
+  have hc := center_relabel P l hl
+  rcases List.mem_append.mp hl with hp | hi
+  · -- a rotation
+    have img := sideImg_ok l hp
+    by_cases hf : (sideImg l 4).1 = 4
+    · by_cases ht : (sideImg l 1).1 = 1
+      · exact rot_fix l hp hf ht
+      · exfalso
+        obtain ⟨hmem, s, hs, hs1⟩ := rot_top l hp hf ht
+        have hs6 : s ∈ List.range 6 := by
+          simp only [List.mem_cons, List.not_mem_nil, or_false] at hs
+          rcases hs with rfl | rfl | rfl <;> decide
+        have e1 := sideKey_relabel P l (dirsOf P.center obs ceil).t s _ _ (img s hs6).2.2 (img s hs6).1
+        have e2 := sideKey_relabel P l (dirsOf P.center obs ceil).t 1 _ _ (img 1 (by decide)).2.2 (img 1 (by decide)).1
+        have a2 := h2.top s hs
+        rw [hc, e1, e2, hs1] at a2
+        exact alignLt_asymm (h1.top _ hmem) a2
+    · exfalso
+      obtain ⟨hmem, s, hs, hs1⟩ := rot_front l hp hf
+      have hs6 : s ∈ List.range 6 := by
+        simp only [List.mem_cons, List.not_mem_nil, or_false] at hs
+        rcases hs with rfl | rfl | rfl | rfl | rfl <;> decide
+      have e1 := sideKey_relabel P l (dirsOf P.center obs ceil).o s _ _ (img s hs6).2.2 (img s hs6).1
+      have e2 := sideKey_relabel P l (dirsOf P.center obs ceil).o 4 _ _ (img 4 (by decide)).2.2 (img 4 (by decide)).1
+      have a2 := h2.front s hs
+      rw [hc, e1, e2, hs1] at a2
+      exact alignLt_asymm (h1.front _ hmem) a2
+  · -- a mirrored relabelling is left-handed
+    exfalso
+    have a := h2.rh 0 (by decide)
+    rw [tp_relabel_improper P l hi 0 (by decide)] at a
+    have b := h1.rh (perm l 0) (List.mem_range.mpr (perm_lt l hl 0 (by decide)))
+    linarith
+
+/-- The handedness repair: when the eight corner triple products of the sorted points have one sign (a convex
+    block, either handedness), the eight triple products of what `reorient` writes back are all positive. -/
+theorem T_C18_right_handed (out : List V3)
+    (h : (∀ i < 8, 0 < tp (Hex.ofList out) i) ∨ (∀ i < 8, tp (Hex.ofList out) i < 0)) :
+    ∀ i < 8, 0 < tp (Hex.ofList (fixHand out)) i := by
+  have h0 : tp (Hex.ofList out) 0 =
+      det3 (out.getD 1 V3.zero - out.getD 0 V3.zero) (out.getD 3 V3.zero - out.getD 0 V3.zero)
+        (out.getD 4 V3.zero - out.getD 0 V3.zero) := rfl
+  rcases h with h | h
+  · have : ¬ tp (Hex.ofList out) 0 < 0 := not_lt.mpr (le_of_lt (h 0 (by decide)))
+    rw [h0] at this
+    simp only [fixHand, this, if_false]
+    exact h
+  · have h00 := h 0 (by decide)
+    rw [h0] at h00
+    simp only [fixHand, h00, if_true]
+    intro i hi
+    have hsw : ∀ j < 8, Hex.ofList (swapLR out) j = relabel (Hex.ofList out) (perm [1, 0, 3, 2, 5, 4, 7, 6]) j := by
+      intro j hj
+      have : j = 0 ∨ j = 1 ∨ j = 2 ∨ j = 3 ∨ j = 4 ∨ j = 5 ∨ j = 6 ∨ j = 7 := by omega
+      rcases this with rfl | rfl | rfl | rfl | rfl | rfl | rfl | rfl <;> rfl
+    rw [tp_congr hsw i hi, tp_relabel_improper _ _ (by decide) i hi]
+    have := h (perm [1, 0, 3, 2, 5, 4, 7, 6] i) (perm_lt _ (by decide) i (List.mem_range.mpr hi))
+    linarith
+
+/-- a left-handed unit cube is turned into a right-handed one -/
+example : (List.range 8).all (fun i => decide (0 < tp (Hex.ofList (fixHand
+    [⟨1, 0, 0⟩, ⟨0, 0, 0⟩, ⟨0, 1, 0⟩, ⟨1, 1, 0⟩, ⟨1, 0, 1⟩, ⟨0, 0, 1⟩, ⟨0, 1, 1⟩, ⟨1, 1, 1⟩])) i)) = true := by
+  decide +kernel
+
+/-- the unit cube seen from the front (observer on -y, ceiling on +z) is canonical: the hypotheses are satisfiable -/
+example : Canonical ⟨1 / 2, -10, 1 / 2⟩ ⟨1 / 2, 1 / 2, 10⟩ unitCube :=
+  ⟨by decide +kernel, by decide +kernel, by decide +kernel⟩
+
+/-- … and a rotated numbering of it is not (so `T_C18_unique` is not vacuous on the other side either) -/
+example : ¬ frontOk ⟨1 / 2, -10, 1 / 2⟩ ⟨1 / 2, 1 / 2, 10⟩ (relabel unitCube (perm [1, 2, 3, 0, 5, 6, 7, 4])) = true := by
+  decide +kernel
 
 end CBV.C18
